@@ -345,6 +345,29 @@ func c05RaceScenarios(tier string) []scenario {
 		}
 		out = append(out, raceWrap("C05", sc))
 	}
+	// harness bodies of other properties that exercise further concurrent API
+	// combinations (concurrent Pings, Close vs reader, writers vs Close frames)
+	extra := func(list []scenario, keep func(name string) bool) {
+		for _, sc := range list {
+			if !keep(sc.Name) {
+				continue
+			}
+			sc.Group = ""
+			sc.Cfg.P = 1
+			if tier == "thorough" {
+				sc.Cfg.P = 2
+			}
+			sc.Name = "x-" + sc.Name
+			out = append(out, raceWrap("C05", sc))
+		}
+	}
+	extra(c15Scenarios(tier), func(n string) bool {
+		return strings.HasPrefix(n, "inorder/k2/") || strings.HasPrefix(n, "asap/k2/loop")
+	})
+	extra(c06Scenarios(tier), func(n string) bool {
+		return strings.HasPrefix(n, "echo-reader-eof/") || strings.HasPrefix(n, "echo-closeread/")
+	})
+	extra(c16Scenarios(tier), func(n string) bool { return strings.HasPrefix(n, "peer-w2/") || strings.HasPrefix(n, "closeread-w1/") })
 	return out
 }
 
